@@ -29,7 +29,7 @@ func (gc *gateCtx) isS(e ast.Expr) bool {
 
 // lcOfSNick: NickToLower(s.Nick)
 func (gc *gateCtx) lcOfSNick(e ast.Expr) bool {
-	call, ok := ast.Unparen(e).(*ast.CallExpr)
+	call, ok := astx.Expand(gc.info, e).(*ast.CallExpr)
 	if !ok || len(call.Args) != 1 {
 		return false
 	}
